@@ -169,4 +169,12 @@ pub fn c06(r: &mut Report) {
         corpus: false,
     };
     run_plan(r, &plan);
+    // disconnection clause with the other side dropped by a panic that is caught inside its task
+    let scens = super::poison::chan_scenarios();
+    let accs = oracle::parallel(scens.len(), oracle::workers().min(scens.len()), |i, acc: &mut Acc| super::poison::check_chan(scens[i], 20_000, acc));
+    for a in accs {
+        a.merge_into(r);
+    }
+    r.rule.push_str("; disconnection by a caught panic: scenario programs in which the receiver / the only sender is dropped by a panic caught inside its task (before a send, after k sends, while a sender is blocked on a full channel, while the receiver is blocked), every schedule: send must fail, recv must drain and then report disconnection, blocked peers must be released");
+
 }
